@@ -57,6 +57,13 @@ pub fn err(e: &str) -> Value {
     json!({"k": "err", "e": e})
 }
 
+/// An error value of the library: identified by its Debug text; its Display rendering is produced as
+/// well (an application that reports the error formats it that way), so that it is part of the call.
+pub fn err_of<E: std::fmt::Debug + std::fmt::Display>(e: &E) -> Value {
+    std::hint::black_box(format!("{e}"));
+    err(&format!("{e:?}"))
+}
+
 pub fn errv(e: &str, v: Value) -> Value {
     json!({"k": "err", "e": e, "v": v})
 }
@@ -83,6 +90,15 @@ pub fn case_bytes(case: &Value) -> Vec<u8> {
             let len = o["len"].as_u64().unwrap() as usize;
             let fill = o.get("fill").and_then(|x| x.as_u64()).unwrap_or(0) as u8;
             let mut v = vec![fill; len];
+            // "tile": a byte pattern repeated from offset 0 (e.g. an 8-byte tag), under the patches
+            if let Some(t) = o.get("tile").and_then(|x| x.as_array()) {
+                let t: Vec<u8> = t.iter().map(|b| b.as_u64().unwrap() as u8).collect();
+                if !t.is_empty() {
+                    for (i, b) in v.iter_mut().enumerate() {
+                        *b = t[i % t.len()];
+                    }
+                }
+            }
             if let Some(p) = o.get("patch").and_then(|x| x.as_array()) {
                 for e in p {
                     let off = e["off"].as_u64().unwrap() as usize;
